@@ -102,11 +102,19 @@ class _CircuitAttacher(object):
                         circuit=circuit,
                     )
                 )))
-                return
+                # this stream was meant for our circuit only; don't
+                # let Tor put it on some other one
+                return self._do_not_attach()
             d.callback(None)
             return circuit
         except Exception:
             d.errback(Failure())
+            return self._do_not_attach()
+
+    @staticmethod
+    def _do_not_attach():
+        from .torstate import TorState  # (torstate imports this module)
+        return TorState.DO_NOT_ATTACH
 
 
 @defer.inlineCallbacks
